@@ -16,6 +16,7 @@ import (
 
 func init() {
 	Register(&Prop{ID: "C01", Run: runC01, StepCap: 40_000_000})
+	Register(&Prop{ID: "C02", Run: runC02, StepCap: 40_000_000})
 	Register(&Prop{ID: "C20", Run: runC20, StepCap: 40_000_000})
 }
 
@@ -45,12 +46,25 @@ func drawStoreCfg(r *simrt.Run) EvalCfg {
 func runC01(r *simrt.Run, tier Tier) Outcome {
 	o := DrawOpts(r)
 	o.Aggregation = false // aggregation is C02's subject
+	return runModelCheck(r, "C01", o)
+}
+
+func runC02(r *simrt.Run, tier Tier) Outcome {
+	o := DrawOpts(r)
+	o.Aggregation, o.AggBias = true, true
+	if o.MaxIDB < 2 {
+		o.MaxIDB = 2
+	}
+	return runModelCheck(r, "C02", o)
+}
+
+func runModelCheck(r *simrt.Run, id string, o GenOpts) Outcome {
 	prog := GenProgram(r, o)
 	src := prog.Source(true)
 	r.Logf("program:\n%s", src)
 	ref := RefEval(prog, refCap)
 	if ref.Err != "" {
-		return Violation("C01/generator", "reference evaluator rejects the generated program: %s\n%s", ref.Err, src)
+		return Violation(id+"/generator", "reference evaluator rejects the generated program: %s\n%s", ref.Err, src)
 	}
 	if ref.Diverged {
 		return Outcome{Discard: "reference-model-too-large"}
@@ -63,14 +77,14 @@ func runC01(r *simrt.Run, tier Tier) Outcome {
 	desc := cfg.String()
 	switch res.Stage {
 	case "panic":
-		return Violation("C01/panic", "%s: panic %s\nprogram:\n%s", desc, res.Panic, src)
+		return Violation(id+"/panic", "%s: panic %s\nprogram:\n%s", desc, res.Panic, src)
 	case "parse":
-		return Violation("C01/generator", "generated program does not parse: %v\n%s", res.Err, src)
+		return Violation(id+"/generator", "generated program does not parse: %v\n%s", res.Err, src)
 	case "analysis":
 		return Outcome{Discard: "rejected:analysis"}
 	case "":
 	default:
-		return Violation("C01/eval-error", "%s: evaluation of an accepted, type-correct program failed at %s: %v\nprogram:\n%s", desc, res.Stage, res.Err, src)
+		return Violation(id+"/eval-error", "%s: evaluation of an accepted, type-correct program failed at %s: %v\nprogram:\n%s", desc, res.Stage, res.Err, src)
 	}
 	got := resortSets(res.Facts, setCols)
 	missing, extra := DiffSets(want, got)
@@ -79,9 +93,9 @@ func runC01(r *simrt.Run, tier Tier) Outcome {
 			r.Logf("known hash-conflation domain: %s / %s", x, y)
 			return Outcome{Discard: "known:hash-collision"}
 		}
-		cls := "C01/missing-fact"
+		cls := id+"/missing-fact"
 		if len(missing) == 0 {
-			cls = "C01/extra-fact"
+			cls = id+"/extra-fact"
 		}
 		return Violation(cls, "%s\nmissing (in the least model, not in the store): %v\nextra (in the store, not in the least model): %v\nprogram:\n%s", desc, missing, extra, src)
 	}
@@ -97,7 +111,28 @@ func runC01(r *simrt.Run, tier Tier) Outcome {
 	if ref.Rounds > 6 {
 		r.Probe("deep-recursion(>6 rounds)")
 	}
-	return Outcome{Nontrivial: derived >= 1, Sample: map[string]any{"program": strings.Split(strings.TrimSpace(src), "\n"), "model_size": len(want), "derived": derived, "config": desc}}
+	nontrivial := derived >= 1
+	if id == "C02" {
+		// count aggregating rules and heads with several of them
+		aggHeads := map[string]int{}
+		aggFacts := 0
+		for i, rule := range prog.Rules {
+			if rule.Do != nil {
+				aggHeads[rule.Head]++
+				aggFacts += len(ref.RuleFacts[i])
+				if len(rule.Body) > 1 {
+					r.Probe("multi-atom-aggregating-rule")
+				}
+			}
+		}
+		for _, n := range aggHeads {
+			if n >= 2 {
+				r.Probe("several-aggregating-rules-per-head")
+			}
+		}
+		nontrivial = aggFacts >= 1
+	}
+	return Outcome{Nontrivial: nontrivial, Sample: map[string]any{"program": strings.Split(strings.TrimSpace(src), "\n"), "model_size": len(want), "derived": derived, "config": desc}}
 }
 
 // ---------------------------------------------------------------------------
